@@ -231,6 +231,12 @@ KERNELS = [
          ext_fn={"selection_func": ("selFn", ["fitness", "rank", "tour_size", "quantity"], ["Arr", "Arr", "Int", "Int"]),
                  "crossover_func": ("crossFn", ["individs", "fitness", "rank", "max_level"], ["Arr", "Arr", "Arr", "Int"], "Int"),
                  "mutation_func": ("mutFn", ["tree", "uniset", "proba", "max_level"], ["Int", "Int", "Int", "Int"], "Int")}),
+    # ---- _update_data: what is recorded per generation.  The final call self._update_stats(**kwargs) is read as "return these keyword
+    #      values": the three scalars max_fitness / max_g / max_ph and the three series (individuals are identifiers here)
+    dict(name="EA_update_data", file="base/_ea.py", cls="EvolutionaryAlgorithm", func="_update_data", params=[], ret="Mat",
+         self_attrs={"_fitness_i": ("fitness_i", "Arr"), "_population_g_i": ("population_g_i", "Arr"), "_population_ph_i": ("population_ph_i", "Arr")},
+         actions={"self._update_fittest": 1},
+         return_call_kwargs=("self._update_stats", [["max_fitness", "max_g", "max_ph"], "fitness", "population_g", "population_ph"])),
     dict(name="tournament_selection", file="utils/selections.py", func="tournament_selection",
          params=[("fitness", "Arr"), ("rank", "Arr"), ("tour_size", "Int"), ("quantity", "Int")], ret="Arr",
          ext_fn={"random_sample": ("sampler", ["range_size", "quantity", "replace"])}),
@@ -1402,7 +1408,7 @@ class Tr:
             for ln in self.stmt(st, ind):
                 lines.append(f"{pad}let s := {ln}")
         if isinstance(last, ast.Return) and self.cfg["ret"] == "Mat" and isinstance(last.value, (ast.Tuple, ast.List)):
-            flatn = []
+            flatn, leaves = [], []
 
             def walk(v):
                 if isinstance(v, (ast.Tuple, ast.List)) and not (isinstance(v, ast.List) and all(self.ty(x) == "Int" for x in v.elts) and v.elts):
@@ -1410,9 +1416,13 @@ class Tr:
                         walk(x)
                 elif self.ty(v) == "Arr":
                     flatn.append(self.E(v, {}))
+                    leaves.append(v)
                 else:
                     raise NotRecognised("returned structure")
             walk(last.value)
+            cond = bor(*[self.oob(v, {}) for v in leaves])
+            if cond != "false":
+                lines.append(f"{pad}let s := {{ s with err := s.err || {cond} }}")
             lines.append(f"{pad}if s.err || s.dry then none else some ([" + ", ".join(flatn) + "])")
         elif isinstance(last, ast.Return) and self.cfg["ret"] == "ArrSelf":
             L = []
@@ -1528,6 +1538,20 @@ def translate(repo: Path, cfg: dict) -> str:
         if missing:
             raise NotRecognised(f"the untranslated tail no longer uses {missing}")
         body.append(ast.Return(value=ast.List(elts=[ast.Name(id=r, ctx=ast.Load()) for r in cfg["returns"]], ctx=ast.Load())))
+        fn = ast.FunctionDef(name=fn.name, args=fn.args, body=body, decorator_list=[], returns=None, type_comment=None)
+        ast.fix_missing_locations(fn)
+    if cfg.get("return_call_kwargs"):
+        # the last statement must be the named call; it is replaced by `return [[scalars...], series...]` of its keyword values
+        callee, shape = cfg["return_call_kwargs"]
+        last = fn.body[-1]
+        if not (isinstance(last, ast.Expr) and isinstance(last.value, ast.Call) and Tr.self_call_name(last.value) == callee and not last.value.args):
+            raise NotRecognised(f"the function does not end in a call of {callee}")
+        kw = {k.arg: k.value for k in last.value.keywords}
+        wanted = [n for g in shape for n in (g if isinstance(g, list) else [g])]
+        if sorted(kw) != sorted(wanted):
+            raise NotRecognised(f"keywords of {callee}: {sorted(kw)}")
+        elts = [ast.List(elts=[kw[n] for n in g], ctx=ast.Load()) if isinstance(g, list) else kw[g] for g in shape]
+        body = fn.body[:-1] + [ast.Return(value=ast.List(elts=elts, ctx=ast.Load()))]
         fn = ast.FunctionDef(name=fn.name, args=fn.args, body=body, decorator_list=[], returns=None, type_comment=None)
         ast.fix_missing_locations(fn)
     return Tr(fn, cfg).render()
